@@ -179,7 +179,9 @@ func (c *Ctx) fnMust(pkgRel, name string) *ssa.Function {
 	if f == nil {
 		fatal("unresolved anchor: %s.%s", pkgRel, name)
 	}
-	return f
+	// an anchor that merely forwards to an implementation function (exported wrapper +
+	// unexported body) stands for that implementation
+	return thinTarget(f)
 }
 
 // allFuncs returns every source function (incl. methods, closures) of the module's
